@@ -287,6 +287,7 @@ func init() {
 		}
 		o.WritersWithin("am/nflog.Log", "st", map[string]string{"am/nflog.New": "", "(*am/nflog.Log).loadSnapshot": "", "(*am/nflog.Log).GC": ""})
 		n := o.LockedAccesses("am/nflog.Log", "st", "mtx", map[string]string{"am/nflog.New": "constructor"})
+		lockBalanceRule(o, "am/nflog")
 		o.Check(n >= 5, "few", "implausibly few accesses to Log.st", nil)
 		o.MinSites(6)
 	})
